@@ -156,8 +156,8 @@ Alts(kind) ==
     [] kind = "RNL" -> <<"", " ", "\n      ", " \n\n   ", "\r\n\t", " # note\n      ", "\n      # full line\n      ">>
     [] kind = "BNL" -> <<"", " ", "\n  ", "\n\n    ", "\r\n", " # c #d\n  ">>
     [] kind = "NL0" -> <<"\n", "\n\n\n", "\r\n", "\n# between\n", " # t\n\n", "   \n  \n">>
-    [] kind = "NL1" -> <<"\n ", "\n\t", "\n", "\n\n   ", "\r\n  ", "\n  # c\n  ", " # t\n  ", " # a #b # c\n  ">>
-    [] kind = "NL2" -> <<"\n    ", "\n\t\t", "\n", "\n\n      ", "\r\n    ", "\n    # c\n    ", " # t\n    ", "  #x #y\n    ">>
+    [] kind = "NL1" -> <<"\n ", "\n\t", "\n", "\n\n   ", "\r\n  ", "\n  # c\n  ", " # t\n  ", " # a #b # c\n  ", "\r  ">>     \* (last: a bare carriage return is a line break for the lexer, no line for positions)
+    [] kind = "NL2" -> <<"\n    ", "\n\t\t", "\n", "\n\n      ", "\r\n    ", "\n    # c\n    ", " # t\n    ", "  #x #y\n    ", "\r    ">>
     [] kind = "LEAD" -> <<"", " ", "\n", "\n\n  ", "# x\n">>
     [] kind = "FIN" -> <<"", "\n", " # end", "\n\n\n", "   ">>
     [] OTHER -> <<"">>
@@ -195,6 +195,7 @@ ParamOf(p) == LET c == ContainerOf(p.ty) IN
               ELSE [name |-> p.name, ty |-> c, elem |-> Upper(SubSeq(p.ty, (IF c = "TYPE_NAME_LIST" THEN 6 ELSE 5), Len(p.ty) - 1))]
 ModelOf(D) ==
   [schema |-> IF D.header = "model" THEN D.schema ELSE "",
+   module |-> IF D.header = "module" THEN D.module ELSE "",      \* what every declaration of a module file is attributed to
    types |-> [i \in 1..Len(D.types) |-> [name |-> D.types[i].name, ext |-> D.types[i].ext,
                  rels |-> SortBy([j \in 1..Len(D.types[i].rels) |-> [name |-> D.types[i].rels[j].name, rw |-> Unpar(D.types[i].rels[j].rw),
                                      restr |-> IF CountThis(Unpar(D.types[i].rels[j].rw)) = 0 THEN <<>> ELSE D.types[i].rels[j].restr]], "name")]],
